@@ -72,6 +72,15 @@ fn gen_cfg(rng: &mut Rng, expose: bool) -> Cfg {
     let nrows = 5 + rng.below(7) as usize;
     let rows: Vec<(String, String)> = (0..nrows).map(|_| (rng.pick(&surf[..]).to_string(), feats(rng))).collect();
     let mut rows = rows;
+    // 1 configuration in 4: a seed row immediately followed by an identical copy (two rows, two words)
+    if rng.chance(1, 4) { let k = rng.below(rows.len() as u64) as usize; let dup = rows[k].clone(); rows.insert(k, dup); }
+    // 1 configuration in 30: a row with three feature columns of about 3000 bytes each (every cell below the 4096-byte
+    // field buffer, an expansion over several columns far above 8192 bytes)
+    let long_cols = rng.chance(1, 30);
+    if long_cols {
+        let col = |c: char| -> String { std::iter::repeat(c).take(2900 + 17).collect() };
+        rows.push(("長".to_string(), format!("名詞,{},{},{}", col('p'), col('q'), col('r'))));
+    }
     if rng.chance(1, 25) {
         // a surface whose CSV-escaped form is longer than 4096 bytes (3900 letters and 150 double quotes)
         let long: String = (0..4050).map(|i| if i % 27 == 0 { '"' } else { 'a' }).collect();
@@ -102,6 +111,8 @@ fn gen_cfg(rng: &mut Rng, expose: bool) -> Cfg {
         let rtag = if rtag.is_empty() { rtag } else { format!("r{}{}:", hr, p) };
         bigrams.push((format!("B{}{}:{}", hl, p, side(rng, 'L')), format!("{}{}", rtag, side(rng, 'R'))));
     }
+    if long_cols { bigrams.push(("BL:%L[0],%L[1],%L[2],%L[3]".to_string(), "rL:%R[0],%R[1],%R[2],%R[3]".to_string())); }
+    let k = bigrams.len();
     // C17's stream: four templates that expose the columns of the left- and right-rewritten features one by one
     let (bigrams, k, bare_right) = if expose {
         ((0..4).map(|p| (format!("L{}:%L[{}]", p, p), format!("R{}:%R[{}]", p, p))).collect::<Vec<_>>(), 4usize, false)
@@ -117,11 +128,21 @@ fn gen_cfg(rng: &mut Rng, expose: bool) -> Cfg {
         let n = 2 + rng.below(3) as usize;
         format!("{} {}\n", pat[..n].join(","), out.join(","))
     };
+    // 1 section in 3 starts with a long rule, a shorter rule that is a prefix of it, and a second long rule sharing that
+    // prefix (first-match order must follow the file, not the shape of the rule trie)
+    let triple = |rng: &mut Rng| -> String {
+        if !rng.chance(1, 3) { return String::new(); }
+        let p0 = *rng.pick(&["名詞", "動詞"][..]);
+        format!("{p},固有,*,* {p},甲,$3,$4\n{p} $1,乙,*,*\n{p},一般,*,* {p},丙,$3,$4\n{p},* 丁,$2,*,*\n", p = p0)
+    };
     let mut rewrite_def = String::from("[unigram rewrite]\n");
+    rewrite_def.push_str(&triple(rng));
     for _ in 0..rng.below(3) { rewrite_def.push_str(&rule(rng)); }
     rewrite_def.push_str("[left rewrite]\n");
+    rewrite_def.push_str(&triple(rng));
     for _ in 0..rng.below(4) { rewrite_def.push_str(&rule(rng)); }
     rewrite_def.push_str("[right rewrite]\n");
+    rewrite_def.push_str(&triple(rng));
     for _ in 0..rng.below(4) { rewrite_def.push_str(&rule(rng)); }
     // corpus of lexicon words
     let mut corpus = String::new();
@@ -244,7 +265,34 @@ pub fn run(prop: &str, seed: u64, n: usize, outdir: &str, _corpus: Option<&str>)
         let pin = pinned.pop();
         let sub = if pin.is_some() { 1000 + round as u64 } else { only.unwrap_or_else(|| master.next()) };
         let mut rng = Rng(sub);
-        let (c, iters) = match pin { Some((c, it)) => (c, it), None => { let c = gen_cfg(&mut rng, expose); let it = 2 + rng.below(5); (c, it) } };
+        let pinned_case = pin.is_some();
+        let (mut c, iters) = match pin { Some((c, it)) => (c, it), None => { let c = gen_cfg(&mut rng, expose); let it = 2 + rng.below(5); (c, it) } };
+        // adaptive part of the generator (1 case in 2): among ~30 candidate 0,0,0 user words (column-wise mixtures of the seed
+        // rows and of the corpus-only tokens) the one whose label is heaviest in a throw-away training of the same
+        // configuration is added to the user lexicon -- so that, where the configuration allows it, the largest absolute
+        // weight of the whole model belongs to a user label
+        if !pinned_case && !expose && rng.chance(1, 2) {
+            let heavy = std::panic::catch_unwind(std::panic::AssertUnwindSafe(|| -> Option<String> {
+                let pre = train(&c, iters, None)?;
+                let mut mb = vec![];
+                pre.write_model(&mut mb).ok()?;
+                let cols: Vec<Vec<String>> = c.lex.lines().chain(c.corpus.lines().filter_map(|l| l.split('\t').nth(1))).map(|l| { let v = csv_cells(l); if v.len() > 4 && l.contains(",0,0,0,") { v[4..].to_vec() } else { v } }).collect();
+                let mut best: Option<(f64, String)> = None;
+                let mut crng = Rng(sub ^ 0xCA2D);
+                for _ in 0..30 {
+                    let n = 2 + crng.below(3) as usize;
+                    let feats: Vec<String> = (0..n).map(|k| { let r = crng.pick(&cols); quote(r.get(k).map_or("*", |x| x.as_str())) }).collect();
+                    let row = format!("uh,0,0,0,{}\n", feats.join(","));
+                    let mut m = Model::read_model(&mb[..]).ok()?;
+                    if m.read_user_lexicon(row.as_bytes()).is_err() { continue; }
+                    let lb = *m.verif_user_labels().first()? as usize;
+                    let w = m.verif_merged().ok()?.0.get(lb - 1)?.0.abs();
+                    if best.as_ref().map_or(true, |b| w > b.0) { best = Some((w, row)); }
+                }
+                best.map(|b| b.1)
+            }));
+            if let Ok(Some(row)) = heavy { c.user.push_str(&row); *dist.entry("adaptive_heavy_user_word".into()).or_default() += 1; }
+        }
         let human = format!("lex.csv={} unk.def={} feature.def={} rewrite.def={} corpus={} user.csv={} iters={}", json_str(&c.lex), json_str(&c.unk), json_str(&c.feature_def), json_str(&c.rewrite_def), json_str(&c.corpus), json_str(&c.user), iters);
         let mut flags: Vec<(String, u8)> = vec![];
         flags.push(("k3_bare_template".into(), 0)); // set below, once bigram.cost is known
